@@ -12,6 +12,7 @@ CONFIG = {
             "family O = the 7 sys.path/sys.argv mutations under ALL 81 combinations of (SysArgs, SysPaths) in {nil, empty, supplied}^2 for the two contexts (quick: 1 interleaving each, thorough: 3); "
             "family B = VERIF_SEED-derived programs (imports, reads, name/attribute/key writes, append, del over names, modules, builtin types, aliases) over 2/4/16 contexts with seeded ContextOpts per context and a seeded interleaving (quick 260, thorough 12000); "
             "family C (tie only) = one *py.Code object run by 16 contexts at once, 16 contexts importing a source-defined registered module at once, concurrent py.Compile of the same sources (GOMAXPROCS 1/4/16), n contexts importing the same source FILE then mutating the module's globals, list, dict, class (one after the other and at once; heap walk afterwards); "
+            "family C:samename (tie only) = 2/4/16 contexts whose sys.path name 2-4 DIFFERENT directories, each holding a module of the SAME name with different content, imported in four forms one after the other and at once (GOMAXPROCS 1/4/16): every context must get the file of its own search path; "
             "two thirds of the family-C contexts are created without SysArgs/SysPaths and one of the shared programs mutates sys.path, sys.argv and os.environ in place. "
             "Scenarios marked free additionally run the n programs freely on n goroutines (GOMAXPROCS 1/4/16 x 2 seeded yield patterns, odd contexts compile their statements themselves, even ones share code objects) and each trace must equal the solo trace; "
             "the free and C scenarios are re-run under a -race build, any race report is a violation. non-trivial = some context writes and a DIFFERENT context observes; distinct = distinct input lines",
